@@ -237,3 +237,73 @@ Proof. apply exp_pos. Qed.
 
 Lemma weigh_in wf nb p : In p (weigh wf nb) -> exists q, In q nb /\ p = (wf (fst q), snd q).
 Proof. unfold weigh. rewrite in_map_iff. intros [q [E Hq]]. exists q. split; [assumption|symmetry; assumption]. Qed.
+
+(* ---- corollaries *)
+Lemma nbrs_all_missing n col ix : forall ds, Forall (fun i => i = n) ix -> nbrs n col ix ds = [].
+Proof.
+  induction ix as [|i ix IH]; intros [|d ds] H; cbn; try reflexivity.
+  inversion H; subst. rewrite Z.eqb_refl. apply IH. assumption.
+Qed.
+
+Lemma no_neighbour_filled wf n col ix ds f :
+  Forall (fun i => i = n) ix ->
+  let C := weighted_col RO wf n col ix ds f in c_res C = f /\ c_cnt C = 0%Z /\ c_sd_undef C = true.
+Proof.
+  intros H C. unfold C.
+  destruct (weighted_mean_spec wf n col ix ds f) as [_ Hf].
+  pose proof (count_spec wf n col ix ds f) as Hc.
+  destruct (stddev_spec wf n col ix ds f) as [_ Hs].
+  rewrite (nbrs_all_missing n col ix ds H) in *. cbn in *.
+  repeat split; [apply Hf; unfold Wsum; cbn; lra|assumption|apply Hs; lia].
+Qed.
+
+Lemma weigh_nonempty wf nb : nb <> [] -> weigh wf nb <> [].
+Proof. destruct nb; [congruence|discriminate]. Qed.
+
+Lemma convex_spec wf n col ix ds f lo hi :
+  let NB := weigh wf (nbrs n col ix ds) in
+  (forall p, In p NB -> 0 <= fst p /\ lo <= snd p <= hi) -> 0 < Wsum NB ->
+  lo <= c_res (weighted_col RO wf n col ix ds f) <= hi.
+Proof.
+  intros NB H HW. destruct (weighted_mean_spec wf n col ix ds f) as [Hm _]. fold NB in Hm.
+  rewrite (Hm HW). apply convex_mean; assumption.
+Qed.
+
+Lemma gauss_spec sigma n col ix ds f lo hi :
+  let NB := weigh (gaussw sigma) (nbrs n col ix ds) in
+  let C := weighted_col RO (gaussw sigma) n col ix ds f in
+  nbrs n col ix ds <> [] -> (forall p, In p (nbrs n col ix ds) -> lo <= snd p <= hi) ->
+  0 < Wsum NB /\ c_res C = WXsum NB / Wsum NB /\ lo <= c_res C <= hi /\
+  (forall p, In p NB -> 0 < fst p) /\ c_cnt C = Z.of_nat (length NB).
+Proof.
+  intros NB C Hne Hb.
+  assert (Hpos : forall p, In p NB -> 0 < fst p).
+  { intros p Hp. destruct (weigh_in _ _ _ Hp) as [q [_ ->]]. apply gaussw_pos. }
+  assert (HW : 0 < Wsum NB) by (apply Wsum_pos; [apply weigh_nonempty; assumption|assumption]).
+  assert (Hcv : lo <= c_res C <= hi).
+  { apply convex_spec; [|assumption]. intros p Hp. destruct (weigh_in _ _ _ Hp) as [q [Hq ->]].
+    cbn [fst snd]. split; [apply Rlt_le, gaussw_pos|apply Hb; assumption]. }
+  split; [assumption|]. split; [apply weighted_mean_spec; assumption|]. split; [assumption|].
+  split; [assumption|].
+  unfold C. rewrite count_spec. unfold NB, weigh. rewrite map_length. reflexivity.
+Qed.
+
+Lemma Dev_nonneg m l : (forall p, In p l -> 0 <= fst p) -> 0 <= Dev m l.
+Proof.
+  unfold Dev. induction l as [|p l IH]; cbn; intros H; [lra|].
+  pose proof (H p (or_introl eq_refl)). assert (IH' := IH (fun q Hq => H q (or_intror Hq))).
+  pose proof (Rle_0_sqr (snd p - m)) as Hs. unfold Rsqr in Hs. nra.
+Qed.
+
+Lemma stddev_welldefined wf n col ix ds f :
+  let NB := weigh wf (nbrs n col ix ds) in
+  (forall p, In p NB -> 0 < fst p) -> (1 < c_cnt (weighted_col RO wf n col ix ds f))%Z ->
+  0 < Wsum NB * Wsum NB - W2sum NB /\ 0 <= Dev (c_res (weighted_col RO wf n col ix ds f)) NB.
+Proof.
+  intros NB Hpos Hc. rewrite count_spec in Hc. split.
+  - apply estimator_denominator_pos; [assumption|]. unfold NB, weigh. rewrite map_length. lia.
+  - apply Dev_nonneg. intros p Hp. apply Rlt_le, Hpos, Hp.
+Qed.
+
+(* evaluation of closed examples (indices are Z literals) *)
+Ltac c04_eval := cbn; cbv [Pos.to_nat Pos.iter_op Nat.add]; cbn.
